@@ -11,7 +11,7 @@ import (
 func init() {
 	register(&propInfo{
 		ID:          "C05",
-		Explanation: "Path and origin analysis of the reconnect machinery: (R05.1) the redial function declines (returns false) exactly when no dial factory is configured, and the no-reconnect option is what makes the factory nil before the connection object is built; (R05.2) inside the redial loop every path from the loop head to a dial passes a sleep on the configured back-off with an attempt counter that grows on every iteration; the method-level retry sleeps before each re-send; (R05.3) after a successful dial the new socket is installed and, on every path to the end of the goroutine, the connection-unusable flag is cleared, keepalive is re-armed on the new socket and the socket reader is restarted; (R05.4) the temporary-connection code is one constant everywhere: seeded for the typed connection error, carried by every locally synthesised failure reply, compared by the retry gate; loss signals always mark the connection unusable (so loss leads to reconnect, not to a silent exit); (R05.5) every configuration field written by an option is read again on the construction path; (R05.6) the back-off delay is clamped before it is converted to an integer duration. (R05.8) the accept arm answers every request accepted during an outage, for both id polarities. (R05.9) the code-to-type direction of an error table is written only by the registry's constructor and Register or copied from another such map.",
+		Explanation: "Path and origin analysis of the reconnect machinery: (R05.1) the redial function declines (returns false) exactly when no dial factory is configured, and the no-reconnect option is what makes the factory nil before the connection object is built; (R05.2) inside the redial loop every path from the loop head to a dial passes a sleep on the configured back-off with an attempt counter that grows on every iteration; the method-level retry sleeps before each re-send; (R05.3) after a successful dial the new socket is installed and, on every path to the end of the goroutine, the connection-unusable flag is cleared, keepalive is re-armed on the new socket and the socket reader is restarted; (R05.4) the temporary-connection code is one constant everywhere: seeded for the typed connection error, carried by every locally synthesised failure reply, compared by the retry gate; loss signals always mark the connection unusable (so loss leads to reconnect, not to a silent exit); (R05.5) every configuration field written by an option is read again on the construction path; (R05.6) the back-off delay is clamped before it is converted to an integer duration. (R05.8) the accept arm answers every request accepted during an outage, for both id polarities. (R05.9) the code-to-type direction of an error table is written only by the registry's constructor and Register or copied from another such map. (R05.10) the WebSocket transport function fails a call by itself only behind the hand-over to the connection loop; (R05.11) the code-to-type lookup is skipped only when the table pointer is nil.",
 		NotDecided:  "That the link actually heals, back-off durations themselves, real outage shapes.",
 		Assumptions: []string{"NewErrors and RPCConnectionError are resolved by exported name", "a float that is not bounded by a dominating comparison may exceed the int64 range"},
 		Run:         runC05,
@@ -397,6 +397,10 @@ func runC05(c *Ctx) {
 	c.acceptArmRule("R05.8")
 	c.rule("R05.9", "the error table a client is given is installed as it is: the built-in code-to-type entry for the connection error (which NewErrors puts only in the code direction) is not lost to a rebuilt copy")
 	c.registryInstalledAsGiven("R05.9")
+	c.rule("R05.10", "a call issued during an outage goes through the connection loop (whose answer carries the temporary-error code the retry gate tests): the transport function does not fail a call by itself before handing it over, except for the caller's own context")
+	c.handOverBeforeFailing("R05.10")
+	c.rule("R05.11", "with an error table installed the reply's code is always looked up in its code-to-type direction (where the built-in connection error lives): the lookup is not skipped by a test of anything but the table pointer itself")
+	c.codeLookupNotGated("R05.11")
 	c.rule("R05.7", "every completion delivered to an id-bearing call carries that call's id")
 	c.completionIDs("R05.7")
 
@@ -712,5 +716,189 @@ func (c *Ctx) registryInstalledAsGiven(rule string) {
 	}
 	if n == 0 {
 		c.und(rule, "code-to-type writes", "-", "none found")
+	}
+}
+
+// handOverBeforeFailing: R05.10. In the transport function of the WebSocket client (the function that
+// sends its request parameter on a channel) no return with a possibly non-nil error lies on a path
+// that has not reached the hand-over select/send — unless the error is the caller's context error.
+// A link-down verdict returned as a Go error never meets the retry gate, which looks at the code
+// of the *response*: a retry-tagged call issued during an outage fails at once.
+func (c *Ctx) handOverBeforeFailing(rule string) {
+	p, r := c.P, c.R
+	if r.TCreq == nil {
+		c.und(rule, "request record type", "-", "not resolved")
+		return
+	}
+	n := 0
+	for _, fn := range p.Funcs {
+		if pkgOf(fn) != p.Root.Pkg {
+			continue
+		}
+		var reqParams []*ssa.Parameter
+		for _, prm := range fn.Params {
+			if prm.Type() == types.Type(r.TCreq) {
+				reqParams = append(reqParams, prm)
+			}
+		}
+		if len(reqParams) == 0 {
+			continue
+		}
+		handOver := map[ssa.Instruction]bool{}
+		p.coneInstrs(fn, func(in ssa.Instruction) {
+			var sent []ssa.Value
+			switch x := in.(type) {
+			case *ssa.Send:
+				sent = append(sent, x.X)
+			case *ssa.Select:
+				for _, st := range x.States {
+					if st.Dir == types.SendOnly {
+						sent = append(sent, st.Send)
+					}
+				}
+			}
+			for _, v := range sent {
+				if v.Type() != types.Type(r.TCreq) {
+					continue
+				}
+				for _, prm := range reqParams {
+					if c.isParamOrForwarded(v, prm) {
+						handOver[in] = true
+					}
+				}
+			}
+		})
+		if len(handOver) == 0 {
+			continue
+		}
+		n++
+		construct := fmt.Sprintf("%s: no failure before the hand-over to the connection loop", fname(fn))
+		var bad ssa.Instruction
+		early := func(x ssa.Instruction) bool {
+			ret, ok := x.(*ssa.Return)
+			if !ok || x.Parent() != fn {
+				return false
+			}
+			for _, rv := range ret.Results {
+				if !isErrorType(rv.Type()) {
+					continue
+				}
+				if k, ok := rv.(*ssa.Const); ok && k.IsNil() {
+					continue
+				}
+				if c.dependsOn(rv, func(v ssa.Value) bool {
+					call, ok := v.(*ssa.Call)
+					return ok && call.Common().IsInvoke() && call.Common().Method.Name() == "Err" && isNamed(call.Common().Value.Type(), "context", "Context")
+				}, 0, map[ssa.Value]bool{}) {
+					continue
+				}
+				return true
+			}
+			return false
+		}
+		bad = reachFromEntry(fn, early, func(x ssa.Instruction) bool { return handOver[x] })
+		if bad != nil {
+			c.bad(rule, construct, c.ipos(bad), "the transport function can return an error without having handed the request to the connection loop (e.g. a \"link is down\" fast path): that failure is a Go error, not a response with the temporary-error code, so the retry gate never sees it — a retry-tagged call issued during an outage fails at once")
+		} else {
+			c.ok(rule, construct, p.pos(fn.Pos()), "every failing return lies behind the hand-over select (or reports the caller's context)")
+		}
+	}
+	if n == 0 {
+		c.und(rule, "hand-over of requests", "-", "no function enqueueing its request parameter found")
+	}
+}
+
+// codeLookupNotGated: R05.11. In the client's error reconstruction (the method of the wire error type
+// that returns a reflect.Value) every return is preceded by the lookup in the code-to-type map, except
+// on the branch where the table pointer is nil. NewErrors puts the connection error only in the
+// code direction: a fast path "no types registered → nothing to map" (len of the type direction,
+// a counter of Register calls) turns the typed connection error into the generic one.
+func (c *Ctx) codeLookupNotGated(rule string) {
+	p := c.P
+	tn, ok := p.Root.Pkg.Scope().Lookup("Errors").(*types.TypeName)
+	if !ok {
+		c.und(rule, "error registry type", "-", "not found")
+		return
+	}
+	var val *ssa.Function
+	for _, fn := range p.Funcs {
+		if pkgOf(fn) != p.Root.Pkg || fn.Parent() != nil || fn.Signature.Recv() == nil {
+			continue
+		}
+		if fn.Signature.Results().Len() == 1 && isNamed(fn.Signature.Results().At(0).Type(), "reflect", "Value") {
+			for _, prm := range fn.Params {
+				if pt, ok := prm.Type().(*types.Pointer); ok && pt.Elem() == tn.Type() {
+					val = fn
+				}
+			}
+		}
+	}
+	if val == nil {
+		c.und(rule, "client error reconstruction method", "-", "not found")
+		return
+	}
+	isLookup := func(in ssa.Instruction) bool {
+		lk, ok := in.(*ssa.Lookup)
+		if !ok {
+			return false
+		}
+		mt, ok := lk.X.Type().Underlying().(*types.Map)
+		if !ok || !isNamed(mt.Elem(), "reflect", "Type") {
+			return false
+		}
+		_, isBasic := mt.Key().Underlying().(*types.Basic)
+		return isBasic
+	}
+	found := false
+	p.coneInstrs(val, func(in ssa.Instruction) {
+		if isLookup(in) {
+			found = true
+		}
+	})
+	construct := fmt.Sprintf("%s: code-to-type lookup", fname(val))
+	if !found {
+		c.und(rule, construct, p.pos(val.Pos()), "no lookup in a code-to-type map found")
+		return
+	}
+	// edges on which the table pointer is known to be nil are not of interest
+	edgeOK := func(b *ssa.BasicBlock, succ int) bool {
+		iff, ok := b.Instrs[len(b.Instrs)-1].(*ssa.If)
+		if !ok {
+			return true
+		}
+		bo, ok := iff.Cond.(*ssa.BinOp)
+		if !ok || (bo.Op != token.EQL && bo.Op != token.NEQ) {
+			return true
+		}
+		other := bo.X
+		if isNilConst(bo.X) {
+			other = bo.Y
+		} else if !isNilConst(bo.Y) {
+			return true
+		}
+		pt, ok := other.Type().(*types.Pointer)
+		if !ok || pt.Elem() != tn.Type() {
+			return true
+		}
+		nilEdge := 0
+		if bo.Op == token.NEQ {
+			nilEdge = 1
+		}
+		return succ != nilEdge
+	}
+	var bad ssa.Instruction
+	for _, b := range val.Blocks {
+		ret, ok := b.Instrs[len(b.Instrs)-1].(*ssa.Return)
+		if !ok {
+			continue
+		}
+		if !mustPrecedeIPF(ret, isLookup, edgeOK, ipMaxDepth) {
+			bad = ret
+		}
+	}
+	if bad != nil {
+		c.bad(rule, construct, c.ipos(bad), "a return is reachable with the error table present but without the code having been looked up in its code-to-type direction (e.g. a fast path for \"no types registered\"): the built-in entry for the connection error lives only there, so calls failing during an outage yield the generic error instead of *RPCConnectionError")
+	} else {
+		c.ok(rule, construct, p.pos(val.Pos()), "every return with a table present lies behind the lookup")
 	}
 }
